@@ -413,6 +413,10 @@ def run(rep: Report, tier: str) -> None:
         rep.exemption("R32.3", k, why)
     rep.analysed = {"mapper_branches": len(dl), "error_writers": len(writers), "execute_sites": nsites, "reachable_functions": len(reach2),
                     "ast_node_classes": nvis, "bare_raise_sites": nraise}
+    # ---- R32.7 every dataset a statement reads is scheduled for loading: the dependency analysis does not carry aliases across statements ----
+    rep.rule("R32.7", "dependency analysis: per-statement state (join aliases) is reset between statements - a dataset hidden by a stale alias is never loaded and the run ends in a raw CatalogException")
+    from sa.checks.c12 import per_statement_state
+    per_statement_state(P, rep, "R32.7")
     rep.assumptions = ["a DuckDB error() call surfaces as duckdb.InvalidInputException whose text contains the constant message",
                        "substring tests on the dynamic suffix of a message are treated as not matching"]
 
